@@ -9,7 +9,7 @@
    proofs/ConcRunFacts.v: whatever `feed` reaches is reached by `exec` under some schedule, so every
    theorem about the machine speaks about these states.
    Executable definitions only. *)
-From DC Require Import DCPrelude Val DiskBase SqlBase Gen_Disk Disk Gen_Sql Cache CacheRun Conc Txn.
+From DC Require Import DCPrelude Val DiskBase SqlBase Gen_Disk Disk Gen_Sql Cache CacheRun Conc Txn TxnQueue.
 
 Definition mconfig := config st result.
 Definition mop := Conc.op st result.
@@ -25,6 +25,11 @@ Definition compile (c : cfg) (retry : bool) (o : Cache.op) (now pg : Z) : option
   | OIncr k d df => if incr_inline c d df then Some (OWrite (w_incr retry c k d df now pg)) else None
   | OGet k rd => Some (ORead (r_get c k rd now))
   | OContains k => Some (ORead (r_contains c k now))
+  (* the queue calls (model/TxnQueue.v): one transaction per call; an expired head, or a file-backed head under
+     peek, makes the machine return the marker `outside`, which no observed result matches *)
+  | OPush v rd p sd e tag => Some (OWrite (w_push retry c v rd p sd e tag now pg))
+  | OPull p sd => Some (OWrite (w_pull retry c p sd now))
+  | OPeek p sd => Some (OWrite (w_peek retry c p sd now))
   | _ => None
   end.
 
@@ -109,10 +114,11 @@ Fixpoint settle_all (c : mconfig) (n : nat) : mconfig :=
 (* ------------------------------------------------------------------ what the implementation returned *)
 Inductive seen := XRes (r : result) | XTimeout.
 
-(* get / pop return the value only (no expire time, no tag asked for) *)
+(* get / pop return the value only (no expire time, no tag asked for); pull / peek the key and the value *)
 Definition res_matches (m got : result) : bool :=
   match m, got with
   | RVal v _ _, RVal v' _ _ => fetched_eqb v v'
+  | RKV k _ v _ _, RKV k' _ v' _ _ => sql_same k k' && fetched_eqb v v'
   | _, _ => result_eqb m got
   end.
 Definition outcome_matches (o : outcome result) (x : seen) : bool :=
